@@ -21,7 +21,7 @@ M = [
     ("proto-timeout-ignores-closing", S + "server/protocol.py", "if self.transport and not self.transport.is_closing():", "if self.transport:", ["C15"]),
     ("proto-size-ge", S + "server/protocol.py", "if len(url_line) + 2 > MAX_REQUEST_SIZE:", "if len(url_line) + 2 >= MAX_REQUEST_SIZE:", ["C08"]),
     ("proto-size-no-crlf-count", S + "server/protocol.py", "if len(url_line) + 2 > MAX_REQUEST_SIZE:", "if len(url_line) > MAX_REQUEST_SIZE + 64:", ["C08"]),
-    ("proto-split-lf", S + "server/protocol.py", "url_line, remaining = self.buffer.split(CRLF, 1)", "url_line, remaining = self.buffer.replace(CRLF, b\"\\n\", 1).split(b\"\\n\", 1)", ["C08", "C07"]),
+    ("proto-accept-lf-terminator", S + "server/protocol.py", "            # Check if we have a complete URL line (ends with CRLF)\n            if CRLF in self.buffer:\n                url_line, remaining = self.buffer.split(CRLF, 1)", "            # Check if we have a complete URL line (ends with CRLF)\n            if b\"\\n\" in self.buffer:\n                url_line, remaining = self.buffer.split(b\"\\n\", 1)\n                url_line = url_line.rstrip(b\"\\r\")", ["C08"]),
     ("proto-mw-ignore-deny", S + "server/protocol.py", "            if not allow:\n                # Middleware rejected request - send error response", "            if allow is None:\n                # Middleware rejected request - send error response", ["C04"]),
     ("proto-mw-exception-admits", S + "server/protocol.py", "                exception_type=type(e).__name__,\n            )\n            self._send_error_response(StatusCode.TEMPORARY_FAILURE, \"Middleware error\")\n\n    def connection_lost", "                exception_type=type(e).__name__,\n            )\n            self._route_request(request, client_ip)\n\n    def connection_lost", ["C04"]),
     ("proto-constant-client-ip", S + "server/protocol.py", "                        request.normalized_url, client_ip, client_cert_fingerprint\n", "                        request.normalized_url, \"0.0.0.0\", client_cert_fingerprint\n", ["C04"]),
@@ -68,12 +68,12 @@ M = [
     ("session-no-loop-check", S + "client/session.py", "        if url in redirect_chain:\n            raise ValueError(f\"Redirect loop detected: {url}\")", "        if False:\n            raise ValueError(f\"Redirect loop detected: {url}\")", ["C16"]),
     ("session-limit-plus-one", S + "client/session.py", "if len(redirect_chain) > max_redirects:", "if len(redirect_chain) > max_redirects + 1:", ["C16"]),
     ("session-limit-ge", S + "client/session.py", "if len(redirect_chain) > max_redirects:", "if len(redirect_chain) >= max_redirects:", ["C16"]),
-    ("session-changed-ignored", S + "client/session.py", "                    if not is_valid and message == \"changed\":\n                        # Certificate changed - get old info and raise error\n                        old_info = self.tofu_db.get_host_info(\n                            parsed.hostname, parsed.port\n                        )\n                        old_fingerprint = (\n                            old_info[\"fingerprint\"] if old_info else \"unknown\"\n                        )\n                        new_fingerprint = get_certificate_fingerprint(cert)\n                        raise CertificateChangedError(", "                    if not is_valid and message == \"changed\" and url.endswith(\"/never\"):\n                        # Certificate changed - get old info and raise error\n                        old_info = self.tofu_db.get_host_info(\n                            parsed.hostname, parsed.port\n                        )\n                        old_fingerprint = (\n                            old_info[\"fingerprint\"] if old_info else \"unknown\"\n                        )\n                        new_fingerprint = get_certificate_fingerprint(cert)\n                        raise CertificateChangedError(", ["C03"]),
-    ("session-none-cert-trusted", S + "client/session.py", "                if cert is None:\n                    # No certificate, or one we cannot parse", "                if cert is None and False:\n                    # No certificate, or one we cannot parse", ["C03", "C11"]),
-    ("session-send-before-verify", S + "client/session.py", "            send_on_connect=False,\n            decode_text=self.decode_text,\n        )\n\n        # Create connection using Protocol/Transport pattern\n        try:\n            transport, protocol = await asyncio.wait_for(\n                loop.create_connection(\n                    lambda: protocol,\n                    host=parsed.hostname,\n                    port=parsed.port,\n                    ssl=self.ssl_context,\n                    server_hostname=parsed.hostname,\n                ),\n                timeout=self.timeout,\n            )\n        except TimeoutError as e:\n            raise TimeoutError(f\"Connection timeout: {url}\") from e", "            send_on_connect=True,\n            decode_text=self.decode_text,\n        )\n\n        # Create connection using Protocol/Transport pattern\n        try:\n            transport, protocol = await asyncio.wait_for(\n                loop.create_connection(\n                    lambda: protocol,\n                    host=parsed.hostname,\n                    port=parsed.port,\n                    ssl=self.ssl_context,\n                    server_hostname=parsed.hostname,\n                ),\n                timeout=self.timeout,\n            )\n        except TimeoutError as e:\n            raise TimeoutError(f\"Connection timeout: {url}\") from e", ["C11"]),
+    ("session-changed-ignored", S + "client/session.py", "                    if not is_valid and message == \"changed\":\n                        # Certificate changed - get old info and raise error\n                        old_info = self.tofu_db.get_host_info(\n                            parsed.hostname, parsed.port\n                        )\n                        old_fingerprint = (\n                            old_info[\"fingerprint\"] if old_info else \"unknown\"\n                        )\n                        new_fingerprint = get_certificate_fingerprint(cert)\n                        raise CertificateChangedError(", "                    if not is_valid and message == \"changed\" and url.endswith(\"/never\"):\n                        # Certificate changed - get old info and raise error\n                        old_info = self.tofu_db.get_host_info(\n                            parsed.hostname, parsed.port\n                        )\n                        old_fingerprint = (\n                            old_info[\"fingerprint\"] if old_info else \"unknown\"\n                        )\n                        new_fingerprint = get_certificate_fingerprint(cert)\n                        raise CertificateChangedError(", ["C03"], 2),
+    ("session-none-cert-trusted", S + "client/session.py", "                if cert is None:\n                    # No certificate, or one we cannot parse", "                if cert is None and False:\n                    # No certificate, or one we cannot parse", ["C03", "C11"], 2),
+    ("session-send-before-verify", S + "client/session.py", "            send_on_connect=False,\n            decode_text=self.decode_text,\n        )\n\n        # Create connection using Protocol/Transport pattern\n        try:\n            transport, protocol = await asyncio.wait_for(\n                loop.create_connection(\n                    lambda: protocol,\n                    host=parsed.hostname,\n                    port=parsed.port,\n                    ssl=self.ssl_context,\n                    server_hostname=parsed.hostname,\n                ),\n                timeout=self.timeout,\n            )\n        except TimeoutError as e:\n            raise TimeoutError(f\"Connection timeout: {url}\") from e", "            send_on_connect=True,\n            decode_text=self.decode_text,\n        )\n\n        # Create connection using Protocol/Transport pattern\n        try:\n            transport, protocol = await asyncio.wait_for(\n                loop.create_connection(\n                    lambda: protocol,\n                    host=parsed.hostname,\n                    port=parsed.port,\n                    ssl=self.ssl_context,\n                    server_hostname=parsed.hostname,\n                ),\n                timeout=self.timeout,\n            )\n        except TimeoutError as e:\n            raise TimeoutError(f\"Connection timeout: {url}\") from e", ["C11"], 2),
     ("client-no-resolve-without-header", S + "client/protocol.py", "        if not self.header_received:\n            self.response_future.set_exception(\n                ConnectionError(\"Connection closed before receiving response\")\n            )\n            return\n\n        # Decode body (only present for 2x success responses)\n        body: str | bytes | None = None\n        if 20 <= self.status < 30:  # type: ignore\n            # Check if this is text", "        if not self.header_received:\n            return\n\n        # Decode body (only present for 2x success responses)\n        body: str | bytes | None = None\n        if 20 <= self.status < 30:  # type: ignore\n            # Check if this is text", ["C13"]),
     ("client-no-cap", S + "client/protocol.py", "        # Check if we've received too much data (prevent memory exhaustion)\n        if len(self.buffer) > MAX_RESPONSE_BODY_SIZE:", "        # Check if we've received too much data (prevent memory exhaustion)\n        if len(self.buffer) > MAX_RESPONSE_BODY_SIZE * 4:", ["C13"]),
-    ("client-lookuperror-uncaught", S + "client/protocol.py", "except (UnicodeDecodeError, LookupError) as e:", "except UnicodeDecodeError as e:", ["C13"]),
+    ("client-lookuperror-uncaught", S + "client/protocol.py", "except (UnicodeDecodeError, LookupError) as e:", "except UnicodeDecodeError as e:", ["C13"], 2),
     ("tofu-verify-prefix-compare", S + "security/tofu.py", "            if stored_fingerprint == fingerprint:\n                # Certificate matches - update last_seen", "            if stored_fingerprint[:8] == fingerprint[:8]:\n                # Certificate matches - update last_seen", ["C03"]),
     ("tofu-verify-no-port", S + "security/tofu.py", "            cursor.execute(\n                \"SELECT fingerprint FROM known_hosts WHERE hostname = ? AND port = ?\",\n                (hostname, port),\n            )\n            row = cursor.fetchone()\n\n            if row is None:\n                # First time seeing this host\n                return True, \"first_use\"", "            cursor.execute(\n                \"SELECT fingerprint FROM known_hosts WHERE hostname = ?\",\n                (hostname,),\n            )\n            row = cursor.fetchone()\n\n            if row is None:\n                # First time seeing this host\n                return True, \"first_use\"", ["C03"]),
     ("tofu-import-commit-in-loop", S + "security/tofu.py", "                    added_count += 1\n", "                    added_count += 1\n                    conn.commit()\n", ["C12"]),
@@ -105,7 +105,9 @@ def main():
     resfile = os.path.join(ROOT, "selftest_results.json")
     if os.path.exists(resfile) and only:
         results = json.load(open(resfile))
-    for mid, path, old, new, checks in M:
+    for entry_ in M:
+        mid, path, old, new, checks = entry_[:5]
+        expect_n = entry_[5] if len(entry_) > 5 else 1
         if only and mid not in only:
             continue
         wt = f"/tmp/vf-selftest-{os.getpid()}"
@@ -113,7 +115,7 @@ def main():
         try:
             fp = os.path.join(wt, path)
             s = open(fp).read()
-            if s.count(old) != 1:
+            if s.count(old) != expect_n:
                 results[mid] = {"status": f"anchor found {s.count(old)} times (mutation stale)"}
                 print(mid, results[mid], flush=True)
                 continue
